@@ -174,7 +174,7 @@ def _simplify_probe(m, r):
 
 # refactorings whose NONMEM result is also read back from its generated code (the written format is the model): the
 # others have listed code-generation findings of their own under C02
-REREAD_AFTER = ("convert_generic_and_back", "rename_symbols", "update_source", "simplify_statements", "unload_load_dataset")
+REREAD_AFTER = ("convert_generic_and_back", "rename_symbols", "update_source")
 
 
 import re as _re
@@ -206,8 +206,20 @@ def _reread_check(c, rng, model, new, recs, K, rname, steps, sname):
     if getattr(getattr(model, "internals", None), "control_stream", None) is None:
         return
 
+    counter = [0]
+
     def rr(m):
-        return read_model_from_string(m.code)
+        # through the file system, so that the model is read with its dataset (the F link of a model whose observation
+        # records name compartments is derived from the CMT values of the data)
+        from pathlib import Path
+
+        from pharmpy.modeling import read_model, write_model
+
+        counter[0] += 1
+        d = Path(os.environ["VERIF_SCRATCH"]) / f"c07rr{os.getpid()}_{id(m) % 100000}_{counter[0]}"
+        d.mkdir(parents=True, exist_ok=True)
+        write_model(m, d / "rr.mod", force=True)
+        return read_model(d / "rr.mod")
 
     def same(m):
         back = denote.IRDen(rr(m))
@@ -322,7 +334,7 @@ def run_case(rng, idx, tier):
         if rname == "mu_reference_model" and any(getattr(s, "symbol", None) is not None and s.symbol.name.startswith("mu_")
                                                   for s in model.statements):
             key = "C07/mu-reference-model-not-idempotent"
-        elif rname.startswith("cleanup_model") and "reads undefined symbol" in mm.what and rname == "cleanup_model":
+        elif rname.startswith("cleanup_model") and "reads undefined symbol" in mm.what:
             key = "C07/cleanup-model-drops-used-definition"
         elif rname.startswith("cleanup_model") and "dependent variable" in mm.what and "is not defined after" in mm.what:
             key = "C07/cleanup-model-removes-dv-definition"
@@ -515,6 +527,7 @@ def _numeric_evaluators(c, rng, idx, tier):
                     a, b = d(1e-6), d(1e-4)
                     if abs(a - b) > 1e-5 * max(1.0, abs(a), abs(b)):
                         raise EvalError("difference quotient not stable (kink or ill-conditioned point)")
+                    _resolvable(y_ref(row, e0, zeros_eps), 1e-4, b)
                     return a
                 if not compare("eta_gradient", eg.iloc[:, k], fd, tol=2e-5):
                     ok = False
@@ -531,6 +544,7 @@ def _numeric_evaluators(c, rng, idx, tier):
                     a, b = d(1e-6), d(1e-4)
                     if abs(a - b) > 1e-5 * max(1.0, abs(a), abs(b)):
                         raise EvalError("difference quotient not stable (kink or ill-conditioned point)")
+                    _resolvable(y_ref(row, etas_of(row), zeros_eps), 1e-4, b)
                     return a
                 if not compare("epsilon_gradient", pg.iloc[:, k], fd, tol=2e-5):
                     break
@@ -546,6 +560,17 @@ def _numeric_evaluators(c, rng, idx, tier):
             c.skipped = "numeric-evaluator-internal-error"
     c.nontrivial = judged > 0
     return c
+
+
+def _resolvable(y0, h, quotient):
+    """A double-precision difference quotient with step h resolves the derivative only to about eps*|y|/h: when the
+    function value is so large that this exceeds the comparison tolerance (two quotients that are both exactly 0 are
+    'stable' and wrong), the point is not judged."""
+    from vp.ir_eval import EvalError
+
+    resolution = 4 * 2.3e-16 * abs(float(y0)) / (2 * h)
+    if resolution > 5e-6 * max(1.0, abs(float(quotient))):
+        raise EvalError("difference quotient cannot resolve the derivative at this magnitude of the function value")
 
 
 def _evaluators(c, rng, model, sname, steps, tier):
